@@ -497,3 +497,5 @@ META = {
     'not_decided': 'equality of the resulting pre-terminal streams (follows from C01/C02 on the restricted grammar)',
     'technique': 'typestate data-flow over a per-function CFG + condition tabulation + happens-before on main',
 }
+
+META['explanation'] += ' ' + 'Further: load_save restores verbatim; every loaded structure is seeded unconditionally; the loaders never write files or (un)pickle state.'
